@@ -14,7 +14,7 @@ ASSUME = [
 def jobs(tier):
     q = tier == "quick"
     j = []
-    d = 6 if q else 8
+    d = 7 if q else 8
     for c in (64, 1, 3):
         j.append(("plain", ["alpha=full", "depth=%d" % (d if c == 64 else d - 1), "c=%d" % c, "maxbytes=8", "maxcont=6"]))
     j.append(("plain-asan", ["alpha=full", "depth=%d" % (5 if q else 6), "c=3", "maxbytes=8", "maxcont=6"]))
